@@ -206,10 +206,13 @@ func C04(c *ev.Ctx) {
 		decls []c04Decl
 		files map[string][]int // file name -> decl indices in file order
 		src   map[string]string
+		kw    bool // some functions are named like Coq keywords: only the names are judged (see C05 for the emitted text)
 	}
 	var infos []pkgInfo
+	curKw := false
 	emit := func(ds []c04Decl, order []int, fnames []string, randomFiles bool) {
-		pi := pkgInfo{decls: ds, files: map[string][]int{}, src: map[string]string{}}
+		pi := pkgInfo{decls: ds, files: map[string][]int{}, src: map[string]string{}, kw: curKw}
+		curKw = false
 		for k, di := range order {
 			f := fnames[0]
 			if randomFiles {
@@ -296,6 +299,29 @@ func C04(c *ev.Ctx) {
 			for i := range ds {
 				if ds[i].kind == "func" && rr.IntN(2) == 0 && pi < len(pool) {
 					ds[i].name = pool[pi]
+					pi++
+				}
+			}
+		}
+		// other naming schemes: identifiers with non-ASCII letters that share their ASCII prefix, and functions named like
+		// Coq keywords next to functions named keyword + "_" (all legal, distinct Go names)
+		switch rr.IntN(8) {
+		case 0, 1:
+			acc := []string{"ä", "é", "ö", "ß"}[rr.IntN(4)]
+			for i := range ds {
+				ds[i].name = ds[i].name[:1] + acc + ds[i].name[1:]
+				if ds[i].extra != "" {
+					ds[i].extra = ds[i].name + "b"
+				}
+			}
+		case 2:
+			pool := []string{"end", "end_", "at", "at_", "in_", "in", "fix", "fix_", "let_", "let", "with", "with_", "mod", "mod_", "fun_", "fun", "match", "match_"}
+			off := 2 * rr.IntN(len(pool)/2)
+			pi := 0
+			curKw = true
+			for i := range ds {
+				if ds[i].kind == "func" && pi < 4 {
+					ds[i].name = pool[(off+pi)%len(pool)]
 					pi++
 				}
 			}
@@ -409,8 +435,8 @@ func C04(c *ev.Ctx) {
 		return
 	}
 	errs := errorLines(gout.stderr)
-	reDef := regexp.MustCompile(`(?m)^(?:Definition|Notation) ([A-Za-z0-9_']+)`)
-	checked, nontriv := 0, 0
+	reDef := regexp.MustCompile(`(?m)^(?:Definition|Notation) ([\p{L}\p{N}_']+)`)
+	checked, nontriv, kwOnly := 0, 0, 0
 	for p, pi := range infos {
 		name := fmt.Sprintf("d%d", p)
 		text, ok := gout.files[name]
@@ -451,6 +477,10 @@ func C04(c *ev.Ctx) {
 			continue
 		}
 		prog, perr := vparse.ParseFile(text)
+		if perr != nil && pi.kw {
+			kwOnly++
+			continue
+		}
 		if perr != nil {
 			c.Inconclusive("emitted file of %s does not parse: %v", name, perr)
 			continue
@@ -504,6 +534,7 @@ func C04(c *ev.Ctx) {
 	c.Set("rich_packages_checked", gchecked)
 	c.AddTraces(checked)
 	c.Set("packages_checked", checked)
+	c.Set("packages_with_coq_keyword_names_judged_by_name_only", kwOnly)
 	c.Set("evaluations", checked)
 	c.Set("distinct_nontrivial", nontriv)
 	c.Set("rule", "seeded packages of 3-5 declarations (func, method, struct, named type, const) with a random acyclic reference graph over 16 reference kinds, random declaration order and split over 1-3 files with scrambled file names; non-trivial = at least one same-package mention")
@@ -572,7 +603,7 @@ func c04Rich(c *ev.Ctx, rr *rand.Rand) int {
 		return 0
 	}
 	errs := errorLines(gout.stderr)
-	reDef := regexp.MustCompile(`(?m)^(?:Definition|Notation) ([A-Za-z0-9_']+)`)
+	reDef := regexp.MustCompile(`(?m)^(?:Definition|Notation) ([\p{L}\p{N}_']+)`)
 	checked := 0
 	for p := 0; p < npk; p++ {
 		name := fmt.Sprintf("r%d", p)
